@@ -10,7 +10,7 @@ SIG_FIELDS = {
     "C16.step.returns_after_stop": (),
     "C16.step.returns": ("chunked", "mediaErr"),
     "C16.step.delivers": ("chunked", "mediaErr"),
-    "C16.complete.crash": ("site", "variants"),
+    "C16.complete.crash": ("site", "variants"),   # + msg (event field) for the map-race class
 }
 
 
@@ -50,7 +50,8 @@ def run(tier, replay=None):
         ("IngesterImpl_MC", f"IngesterImpl_gendur_{tier}.cfg", dict(workers=1, coverage=False, timeout=3000)),
     ]
     if tier == "thorough":
-        jobs += [J("thorough"), J("dur_thorough"), J("wide"), J("live_fix", coverage=False)]
+        jobs += [J("thorough"), J("dur_thorough"), J("wide"), J("live_fix", coverage=False),
+                 J("quiesc", coverage=False), J("quiesc_guard", coverage=False)]
     res = c.models(jobs, parallel=4)
     c.extra["design_counterexamples"] = {
         "duration_plus_one (code: lastSegNrToSend = next + nrSegs, inclusive loop)": res[3].violated,
@@ -77,9 +78,9 @@ def run(tier, replay=None):
     drive = vlib.build_harness(cmd="c16")
     trace = c.work / "c16.ndjson"
     if tier == "quick":
-        args = ["-ngen", 36, "-n", 14, "-stuckms", 3000, "-par", 12]
+        args = ["-ngen", 36, "-n", 14, "-nconc", 4, "-stuckms", 3000, "-par", 12]
     else:
-        args = ["-ngen", 0, "-n", 80, "-stuckms", 4000, "-par", 12, "-realtime"]
+        args = ["-ngen", 0, "-n", 80, "-nconc", 30, "-stuckms", 4000, "-par", 12, "-realtime"]
     st = vlib.run_driver(drive, ["-out", trace, "-gen", genf, "-seed", c.seed] + args, timeout=3000)
     r, lines = c.validate_trace("Ingester_Trace", trace, timeout=3000)
     events = vlib.read_ndjson(trace)
